@@ -3,13 +3,15 @@ import Asn1Verif.Proto.Codec
 import Asn1Verif.Proto.CodecLemmas
 import Asn1Verif.Proto.ReaderLemmas
 import Asn1Verif.Proto.RoundTripLemmas
+import Asn1Verif.Proto.IntWidthLemmas
 /-
   C17 — Protobuf round trip preserves values up to proto3 default equivalence.
 
   Models: `Proto/Wire.lean` (mirror of src/protocol/protobuf/mod.rs), `Proto/Codec.lean` (mirror of
   src/rw/proto_write.rs, src/rw/proto_read.rs, peq.rs).  Lemmas: `Proto/WireLemmas.lean` (wire
   primitives), `Proto/CodecLemmas.lean` (back ends, counters), `Proto/ReaderLemmas.lean` (reader on
-  untrusted input), `Proto/RoundTripLemmas.lean` (index of a written message, round trip).
+  untrusted input), `Proto/RoundTripLemmas.lean` (index of a written message, round trip),
+  `Proto/IntWidthLemmas.lean` (the integer encoding against the Rust type of the converter).
   Tie to the code: `./check C17` (streams proto-rt, proto-peq, proto-dec over the compiled zoo).
 -/
 namespace Asn1Verif.Props.C17
@@ -235,8 +237,11 @@ def proto_roundtrip : Prop :=
         SEQUENCE, at the root and as components.
     `rtOK` excludes exactly the shapes in which the code does NOT round-trip (counterexamples below,
     each reproduced on the real crate by `./check C17`):
-      * an INTEGER value outside the range of the wire class selected from the constraint constants
-        (only reachable for extensible constraints, F-proto-int-ext),
+      * an INTEGER value outside the range of the wire class selected from the constraint constants:
+        not reachable for any INTEGER type the converter generates (`int_in_region_generated`,
+        `int_roundtrip_generated` below — since the repair of F-proto-int-ext an extensible
+        constraint selects the 64-bit class of its 64-bit Rust type), only for a hand-written
+        `#[asn(integer(0..255))] x: u64`, i.e. a value that violates a non-extensible constraint,
       * SEQUENCE OF whose element is itself a SEQUENCE OF or NULL (F-proto-nested-list),
       * a CHOICE alternative that is NULL or a SEQUENCE OF (F-proto-choice-empty, F-proto-choice-list),
       * an OPTIONAL NULL component (`counter_disagree_opt_null`),
@@ -283,15 +288,73 @@ example : rtOK richTy richVal = true ∧
         | _ => false)
      | _ => false) = true := by decide
 
-/-- F-proto-int-ext: INTEGER (0..255, ...) is held in a 64-bit Rust type but written as uint32:
-    2^32 + 5 comes back as 5 -/
-theorem roundtrip_fails_ext_int :
+/-! #### INTEGER: nothing is excluded for the types of the converter (F-proto-int-ext repaired) -/
+
+/-- The INTEGER clause of `rtOK` is never reached by converter output: for every constraint
+    `(min..max)` / `(min..max, ...)` with `i64` bounds (`none` = `MIN`/`MAX`; empty root included)
+    the descriptor the generated code shows — constants of `write_integer_constraint_type`, Rust
+    type of `asn_fixed_integer_to_rust_type` / `asn_extensible_integer_to_rust` — and every value
+    the writer accepts for it (every value of that Rust type) lie in the region. -/
+theorem int_in_region_generated (min max : Option Int) (ext : Bool)
+    (hmin : Codegen.IntType.OptInI64 min) (hmax : Codegen.IntType.OptInI64 max) (i : Int) (c : Nat)
+    (r : List Item × Nat) (henc : encI (generatedTy min max ext) (.int i) c = ok r) :
+    rtOK (generatedTy min max ext) (.int i) = true := by
+  simp only [generatedTy, encI] at henc
+  split at henc
+  · simp at henc
+  · rename_i hc
+    simp only [generatedTy, rtOK]
+    exact generatedTy_fits min max ext hmin hmax i (Decidable.not_not.mp hc)
+
+/-- **INTEGER round trip, unconditional.**  `X ::= INTEGER (min..max[, ...])` for every constraint
+    with `i64` bounds — the one-component message the converter generates for it — and every value
+    of its Rust type: what the writer emits is read back to the very same number, by the present
+    reader and every repaired one.  No excluded region. -/
+theorem int_roundtrip_generated (fx : Option Fix) (min max : Option Int) (ext : Bool)
+    (hmin : Codegen.IntType.OptInI64 min) (hmax : Codegen.IntType.OptInI64 max) (i : Int) (bytes : List Byte)
+    (henc : encode (wrap (generatedTy min max ext)) (wrapV (.int i)) = ok bytes) :
+    decode fx (wrap (generatedTy min max ext)) bytes = ok (wrapV (.int i)) := by
+  simp only [generatedTy] at henc ⊢
+  exact wrap_int_roundtrip fx _ _ _ _ _ i bytes (generatedTy_fits min max ext hmin hmax i) henc
+
+/-- … and for every extensible constraint on a 64-bit Rust type whatever its bounds (hand-written
+    attributes included): `MIN`/`MAX` bound the root only, every `u64`/`i64` is written in full -/
+theorem int_roundtrip_extensible (fx : Option Fix) (min max : Option Int) (signed : Bool) (i : Int)
+    (bytes : List Byte)
+    (henc : encode (wrap (.int min max true 64 signed)) (wrapV (.int i)) = ok bytes) :
+    decode fx (wrap (.int min max true 64 signed)) bytes = ok (wrapV (.int i)) :=
+  wrap_int_roundtrip fx min max true 64 signed i bytes
+    (fun hc => intFits_ext min max i (castInt64_range signed i hc).1 (castInt64_range signed i hc).2) henc
+
+/-- non-vacuity: INTEGER (-100..100, ...) (`i64`) holds -2^40, which is written (sint64) -/
+example : generatedTy (some (-100)) (some 100) true = .int (some (-100)) (some 100) true 64 true ∧
+    encode (wrap (generatedTy (some (-100)) (some 100) true)) (wrapV (.int (-1099511627776))) =
+      ok [0x08#8, 0xff#8, 0xff#8, 0xff#8, 0xff#8, 0xff#8, 0x3f#8] := ⟨by rfl, by decide⟩
+
+/-- regression (former witness of F-proto-int-ext, `roundtrip_fails_ext_int`): INTEGER (0..255, ...)
+    is held in a `u64`; 2^32 + 5 was written `as u32` and came back as 5.  It is now inside the
+    region, written as the uint64 varint `85 80 80 80 10` and read back unchanged; so is -1 (the
+    `i64` view of `u64::MAX`), which came back as 4294967295. -/
+example :
     let t : Ty := .seq 0 1 none (.cons .m (.int (some 0) (some 255) true 64 true) .nil)
     let v : Val := .seq (.cons (.int 4294967301) .nil)
-    rtOK t v = false ∧
+    let w : Val := .seq (.cons (.int (-1)) .nil)
+    rtOK t v = true ∧ rtOK t w = true ∧
+    encode t v = ok [0x08#8, 0x85#8, 0x80#8, 0x80#8, 0x80#8, 0x10#8] ∧
     (match encode t v with
-     | .ok bytes => yields (decode none t bytes) (.seq (.cons (.int 5) .nil)) && !Val.protoEq t v (.seq (.cons (.int 5) .nil))
+     | .ok bytes => yields (decode none t bytes) v && Val.protoEq t v v
+     | _ => false) = true ∧
+    (match encode t w with
+     | .ok bytes => yields (decode none t bytes) w
      | _ => false) = true := by decide
+
+/-- the in-root values keep their octets: 200 is `08 c8 01` as before (uint32 and uint64 varints
+    coincide); a negative lower bound: zig-zag of `|v| < 2^30` is the same in 32 and 64 bits, above
+    that the old code sign-extended the 32-bit zig-zag value to ten octets -/
+example : intToVarint .u32 200 = intToVarint .u64 200 ∧
+    intToVarint .s32 (2 ^ 30 - 1) = intToVarint .s64 (2 ^ 30 - 1) ∧
+    intToVarint .s32 (-(2 ^ 30)) = intToVarint .s64 (-(2 ^ 30)) ∧
+    intToVarint .s32 (2 ^ 30) = 2 ^ 64 - 2 ^ 31 ∧ intToVarint .s64 (2 ^ 30) = 2 ^ 31 := by decide
 
 /-- F-proto-choice-empty: CHOICE { only NULL } is written as no octet at all and cannot be read -/
 theorem roundtrip_fails_choice_null :
